@@ -61,7 +61,9 @@ pub struct ConnectionStats;
 //@include contracts/shared/ack_specs.rs
 //@include contracts/shared/client_status_specs.rs
 //@include contracts/shared/client_glue_specs.rs
+//@include contracts/shared/send_loop_specs.rs
 //@include contracts/shared/client_send_specs.rs
+//@include contracts/shared/client_send_ready_specs.rs
 
 impl ConnectionStats {
     #[verifier::external_body]
@@ -114,10 +116,11 @@ impl RenetClient {
                     packet_sequence: self.packet_sequence, ..s0 }),
                 self.send_reliable_channels@.dom() == s0.send_reliable_channels@.dom(),
                 self.send_unreliable_channels@.dom() == s0.send_unreliable_channels@.dom(),
-                forall|c: u8| #[trigger] self.send_reliable_channels@.contains_key(c) ==> self.send_reliable_channels@[c].send_ok(),
+                forall|c: u8| #[trigger] self.send_reliable_channels@.contains_key(c) ==> self.send_reliable_channels@[c].send_ok()
+                    && self.send_reliable_channels@[c].times_ok(s0.current_time),
                 forall|c: u8| #[trigger] self.send_unreliable_channels@.contains_key(c) ==> self.send_unreliable_channels@[c].send_ok(),
                 self.packet_sequence == seq0 + packets@.len(),
-                packets@.len() <= itO.index() * 0x800_0000_0000,
+                packets@.len() + available_bytes <= s0.available_bytes_per_tick + itO.index() * 0x800_0000_0000,
                 all_sendable(packets@, seq0),                                                        // @C13 get_packets_to_send.every_channel_packet_is_sendable
                 packets_payload(packets@) + available_bytes == s0.available_bytes_per_tick,          // @C14 get_packets_to_send.one_budget_through_all_channels
 //@after /for order in self\.channel_send_order\.iter\(\) \{/
@@ -168,7 +171,7 @@ impl RenetClient {
 //@before /let sent_at = self\.current_time;/
         let ghost pk = packets@;
         let ghost s2 = *self;
-        proof { assert(pk.len() <= 256 * 0x800_0000_0000 + 1); }
+        proof { assert(pk.len() <= 0x1_0000_0000_0000 + 256 * 0x800_0000_0000 + 1); }
 //@loop 2 iter=itQ
             invariant
                 itQ.seq().len() == pk.len(),
